@@ -105,7 +105,7 @@ func commands(m *mode) []consoleui.Command {
 
 			var line int = -1
 			offset := m.view.Cursor.Value()
-			for i := offset + 1; i != offset; i = (i + 1) % m.view.Lines.Len() {
+			for i := (offset + 1) % m.view.Lines.Len(); i != offset; i = (i + 1) % m.view.Lines.Len() {
 				if regexp.MatchString(m.view.Lines.Index(i).String()) {
 					line = i
 					break
